@@ -6,6 +6,7 @@ package main
 
 import (
 	"fmt"
+	"strings"
 
 	"github.com/6tail/lunar-go/calendar"
 	"lunarmon/ref"
@@ -20,6 +21,7 @@ func init() {
 			"the 28 mansions in their classical order 角..轸",
 		},
 		Gen: c18Gen, Run: c18Run,
+		BlockKind: "year", BlockQuick: [2]int{6, 6}, BlockThorough: [2]int{0, 25},
 		Exhaustive: func(tier string) bool { return false },
 		MinEvals:   map[string]int64{"quick": 3000000, "thorough": 100000000},
 		Chunks:     128,
@@ -189,6 +191,28 @@ func c18Moment(w *W, st ref.Stamp, class string) {
 	if l.GetWeek() != ref.Weekday(j) {
 		w.Violatef("law-mansion", key+"/week", "Lunar.GetWeek=%d at %s, reference %d", l.GetWeek(), key, ref.Weekday(j))
 	}
+	// none of these attributes is a matter of the chart's day-boundary convention: switching the Lunar's own chart to
+	// sect 1 (a caller preparing to read the chart the other way) must leave every non-chart accessor where it was
+	if st.H == 23 {
+		snap := func() string {
+			var keep []string
+			for _, p := range strings.Split(digest1(l), ";") {
+				if !strings.HasPrefix(p, "GetBaZi") && !strings.HasPrefix(p, "GetEightChar") && !strings.HasPrefix(p, "Lunar{GetBaZi") {
+					keep = append(keep, p)
+				}
+			}
+			return strings.Join(keep, ";")
+		}
+		before := snap()
+		l.GetEightChar().SetSect(1)
+		after := snap()
+		l.GetEightChar().SetSect(2)
+		if before != after {
+			w.Violatef("sect-dependence", key, "accessors of the Lunar at %s change when its chart is switched to sect 1: %s", key, diffDigests(before, after))
+		}
+		w.Eval(1)
+		w.Count("late-rat-hour-sect-switches", 1)
+	}
 	w.Distinct(1)
 	w.Count(class, 1)
 }
@@ -201,13 +225,17 @@ func c18Run(w *W, c Case) {
 	tbl := calendar.NewSolarFromYmd(y, 6, 15).GetLunar().GetJieQiTable()
 	lo := ref.Stamp{Y: y, M: 1, D: 1}.Secs()
 	hi := ref.Stamp{Y: y, M: 12, D: 31, H: 23, Mi: 59, S: 59}.Secs()
+	nAdd := 0
 	add := func(t int64, class string) {
 		if t >= lo && t <= hi {
+			if nAdd++; nAdd%9 == 0 {
+				distract(ref.FromSecs(t), nAdd/9)
+			}
 			c18Moment(w, ref.FromSecs(t), class)
 		}
 	}
 	step := 2
-	if by || !w.Quick {
+	if by || !w.Quick || w.InBlock {
 		step = 1
 	}
 	for j := ref.JDN(y, 1, 1); j <= ref.JDN(y, 12, 31); j += step {
